@@ -27,6 +27,14 @@ fn strip_volatile(v: &mut Value) {
     }
 }
 
+fn hj(h: &History, extra: &Value) -> Value {
+    let mut j = h.replay_json();
+    if !extra.is_null() {
+        j["then"] = extra.clone();
+    }
+    j
+}
+
 pub fn run(p: &Params, rep: &mut Report) {
     rep.rule = "final states of seeded op-histories (removals -> gaps, protect_text, all selector kinds, id-less items) are saved with a .cbor name and loaded again; compared: the hooked dump of every store, id map, reverse index and position index entry by entry, the full canonical observation WITH handles and all reverse lookups, segmentation/find_text/related_text answers, the rows of 8 seeded queries per store, and the STAM JSON serialisation of both stores under an explicit JSON config. distinct_nontrivial = distinct (store shape, has-gaps, shrink_to_fit on load) tuples".into();
     rep.assumptions = vec!["`changed` flags, the serialize-mode cell and the caller-supplied debug/shrink_to_fit settings are run-time state and excluded from the dump comparison".into()];
@@ -40,6 +48,24 @@ pub fn run(p: &Params, rep: &mut Report) {
         let milestone = *rng.pick(&[100usize, 3, 0]);
         let shrink0 = rng.chance(1, 2);
         let mut h = random_history(&mut rng, cfg, nops, milestone, shrink0);
+        // now and then an annotation that names the same target twice (the model does not cover it; the comparison is
+        // between the saved and the loaded store): its reverse-index entries are repeated and must come back repeated
+        let mut extra = Value::Null;
+        if rng.chance(1, 4) {
+            let rid = h.store.resources().next().and_then(|r| r.id().map(|s| s.to_string()));
+            let len = h.store.resources().next().map(|r| r.textlen()).unwrap_or(0);
+            if let Some(rid) = rid {
+                let (b, e) = crate::gen::gen_range(&mut rng, len);
+                let (what, target) = match rng.below(3) {
+                    0 => ("Multi[Text,Text]", SelectorBuilder::multiselector(vec![SelectorBuilder::textselector(rid.clone(), Offset::simple(b, e)), SelectorBuilder::textselector(rid.clone(), Offset::simple(b, e))])),
+                    1 => ("Composite[Resource,Resource]", SelectorBuilder::compositeselector(vec![SelectorBuilder::resourceselector(rid.clone()), SelectorBuilder::resourceselector(rid.clone())])),
+                    _ => ("Directional[Text,Resource,Text]", SelectorBuilder::directionalselector(vec![SelectorBuilder::textselector(rid.clone(), Offset::simple(b, e)), SelectorBuilder::resourceselector(rid.clone()), SelectorBuilder::textselector(rid.clone(), Offset::simple(b, e))])),
+                };
+                let ok = guard(|| h.store.annotate(AnnotationBuilder::new().with_id("same-target-twice").with_target(target).with_data("twice", "k", "v"))).map(|r| r.is_ok()).unwrap_or(false);
+                extra = json!({"then_annotate": what, "resource": rid, "range": [b, e], "accepted": ok});
+                rep.count(&format!("same-target-twice/{}/{}", what, if ok { "accepted" } else { "refused" }));
+            }
+        }
         let dir = format!("{}/c11-{}", p.workdir, k);
         let _ = std::fs::remove_dir_all(&dir);
         std::fs::create_dir_all(&dir).expect("workdir");
@@ -48,12 +74,12 @@ pub fn run(p: &Params, rep: &mut Report) {
         match guard(|| h.store.to_file(&path)) {
             Ok(Ok(())) => {}
             Ok(Err(e)) => {
-                rep.violation(format!("C11/save-error/{}", normalise_msg(&format!("{}", e)).chars().take(80).collect::<String>()), json!({"error": format!("{}", e), "history": h.replay_json()}));
+                rep.violation(format!("C11/save-error/{}", normalise_msg(&format!("{}", e)).chars().take(80).collect::<String>()), json!({"error": format!("{}", e), "history": hj(&h, &extra)}));
                 let _ = std::fs::remove_dir_all(&dir);
                 continue;
             }
             Err(pn) => {
-                rep.violation(format!("C11/save-panic/{}", pn.class()), json!({"panic": pn.msg, "at": pn.loc, "history": h.replay_json()}));
+                rep.violation(format!("C11/save-panic/{}", pn.class()), json!({"panic": pn.msg, "at": pn.loc, "history": hj(&h, &extra)}));
                 let _ = std::fs::remove_dir_all(&dir);
                 continue;
             }
@@ -63,12 +89,12 @@ pub fn run(p: &Params, rep: &mut Report) {
         let loaded = match guard(|| AnnotationStore::from_file(&path, Config::default().with_debug(false).with_shrink_to_fit(shrink))) {
             Ok(Ok(s)) => s,
             Ok(Err(e)) => {
-                rep.violation(format!("C11/load-error/{}", normalise_msg(&format!("{}", e)).chars().take(80).collect::<String>()), json!({"error": format!("{}", e), "history": h.replay_json()}));
+                rep.violation(format!("C11/load-error/{}", normalise_msg(&format!("{}", e)).chars().take(80).collect::<String>()), json!({"error": format!("{}", e), "history": hj(&h, &extra)}));
                 let _ = std::fs::remove_dir_all(&dir);
                 continue;
             }
             Err(pn) => {
-                rep.violation(format!("C11/load-panic/{}", pn.class()), json!({"panic": pn.msg, "at": pn.loc, "history": h.replay_json()}));
+                rep.violation(format!("C11/load-panic/{}", pn.class()), json!({"panic": pn.msg, "at": pn.loc, "history": hj(&h, &extra)}));
                 let _ = std::fs::remove_dir_all(&dir);
                 continue;
             }
@@ -89,7 +115,7 @@ pub fn run(p: &Params, rep: &mut Report) {
                 let sub: String = path.split('/').skip(2).filter(|c| !c.chars().all(|ch| ch.is_ascii_digit())).collect::<Vec<_>>().join("/");
                 rep.violation(
                     format!("C11/dump-differs/{}/{}", top, sub),
-                    json!({"path": path, "saved": x, "loaded": y, "history": h.replay_json()}),
+                    json!({"path": path, "saved": x, "loaded": y, "history": hj(&h, &extra)}),
                 );
             }
         }
@@ -102,11 +128,11 @@ pub fn run(p: &Params, rep: &mut Report) {
                 if let Some((path, x, y)) = first_diff(&a, &b, "") {
                     rep.violation(
                         format!("C11/observation-differs{}/{}", path_class(&path), diff_kind(&x, &y)),
-                        json!({"path": path, "saved": x, "loaded": y, "history": h.replay_json()}),
+                        json!({"path": path, "saved": x, "loaded": y, "history": hj(&h, &extra)}),
                     );
                 }
             }
-            (_, Err(pn)) => rep.violation(format!("C11/observe-loaded-panic/{}", pn.class()), json!({"panic": pn.msg, "at": pn.loc, "history": h.replay_json()})),
+            (_, Err(pn)) => rep.violation(format!("C11/observe-loaded-panic/{}", pn.class()), json!({"panic": pn.msg, "at": pn.loc, "history": hj(&h, &extra)})),
             _ => {}
         }
         // (3) searches
@@ -116,11 +142,11 @@ pub fn run(p: &Params, rep: &mut Report) {
                 if let Some((path, x, y)) = first_diff(&a, &b, "") {
                     rep.violation(
                         format!("C11/answers-differ/{}", path.split('/').nth(2).unwrap_or("")),
-                        json!({"path": path, "saved": x, "loaded": y, "history": h.replay_json()}),
+                        json!({"path": path, "saved": x, "loaded": y, "history": hj(&h, &extra)}),
                     );
                 }
             }
-            (_, Err(pn)) => rep.violation(format!("C11/answers-loaded-panic/{}", pn.class()), json!({"panic": pn.msg, "history": h.replay_json()})),
+            (_, Err(pn)) => rep.violation(format!("C11/answers-loaded-panic/{}", pn.class()), json!({"panic": pn.msg, "history": hj(&h, &extra)})),
             _ => {}
         }
         // (4) JSON of both under an explicit JSON config
@@ -129,11 +155,11 @@ pub fn run(p: &Params, rep: &mut Report) {
         match (guard(|| h.store.to_json_string(&jcfg)), guard(|| loaded.to_json_string(&jcfg))) {
             (Ok(Ok(a)), Ok(Ok(b))) => {
                 if a != b {
-                    rep.violation("C11/json-of-loaded-store-differs", json!({"history": h.replay_json(), "saved_len": a.len(), "loaded_len": b.len()}));
+                    rep.violation("C11/json-of-loaded-store-differs", json!({"history": hj(&h, &extra), "saved_len": a.len(), "loaded_len": b.len()}));
                 }
             }
-            (Ok(Ok(_)), Ok(Err(e))) => rep.violation("C11/json-of-loaded-store-fails", json!({"error": format!("{}", e), "history": h.replay_json()})),
-            (Ok(Ok(_)), Err(pn)) => rep.violation(format!("C11/json-of-loaded-store-panics/{}", pn.class()), json!({"panic": pn.msg, "history": h.replay_json()})),
+            (Ok(Ok(_)), Ok(Err(e))) => rep.violation("C11/json-of-loaded-store-fails", json!({"error": format!("{}", e), "history": hj(&h, &extra)})),
+            (Ok(Ok(_)), Err(pn)) => rep.violation(format!("C11/json-of-loaded-store-panics/{}", pn.class()), json!({"panic": pn.msg, "history": hj(&h, &extra)})),
             _ => {}
         }
         // (5) queries: the same rows (handles included) from both stores
@@ -146,7 +172,7 @@ pub fn run(p: &Params, rep: &mut Report) {
                 let (a, b) = (crate::c08::eval(&h.store, &q), crate::c08::eval(&loaded, &q));
                 rep.eval();
                 if a != b {
-                    rep.violation("C11/query-answers-differ".to_string(), json!({"query": q.describe(), "saved": format!("{:?}", a).chars().take(400).collect::<String>(), "loaded": format!("{:?}", b).chars().take(400).collect::<String>(), "history": h.replay_json()}));
+                    rep.violation("C11/query-answers-differ".to_string(), json!({"query": q.describe(), "saved": format!("{:?}", a).chars().take(400).collect::<String>(), "loaded": format!("{:?}", b).chars().take(400).collect::<String>(), "history": hj(&h, &extra)}));
                     break;
                 }
                 if matches!(a, crate::c08::Out::Rows(ref r) if !r.is_empty()) {
@@ -155,7 +181,7 @@ pub fn run(p: &Params, rep: &mut Report) {
             }
         }
         if k % 67 == 0 {
-            rep.sample(json!({"case": k, "history": h.replay_json(), "gaps": gaps, "shrink_on_load": shrink}));
+            rep.sample(json!({"case": k, "history": hj(&h, &extra), "gaps": gaps, "shrink_on_load": shrink}));
         }
     }
 }
